@@ -14,7 +14,7 @@ from autoconf.class_path import get_class
 from autoconf.dictable import to_dict, from_dict
 from autoconf.output import conditional_output, should_output
 from autofit.text import formatter
-from autofit.tools.util import open_
+from autofit.tools.util import open_, open_atomic
 from autofit.non_linear.samples.samples import Samples
 
 from .abstract import AbstractPaths
@@ -77,7 +77,7 @@ class DirectoryPaths(AbstractPaths):
         prefix
             A prefix to add to the path which is the name of the folder the file is saved in.
         """
-        with open_(self._path_for_json(name, prefix), "w+") as f:
+        with open_atomic(self._path_for_json(name, prefix), "w+") as f:
             json.dump(object_dict, f, indent=4)
 
     def load_json(self, name, prefix: str = ""):
@@ -193,7 +193,7 @@ class DirectoryPaths(AbstractPaths):
         """
         filename = self.search_internal_path / "search_internal.dill"
 
-        with open_(filename, "wb") as f:
+        with open_atomic(filename, "wb") as f:
             dill.dump(obj, f)
 
     def load_search_internal(self):
